@@ -81,6 +81,37 @@ class LazyOperator:
         return self.op(*[arg.eval(data_mask, env) for arg in self.args])
 
 
+class LazyGrouping:
+    """Lazy representation of an expression wrapped in parentheses.
+
+    It evaluates to whatever the expression inside evaluates to. It exists so the parentheses are
+    part of the name of the call: ``I(x - (z - 2))`` and ``I(x - z - 2)`` are different terms.
+
+    Parameters
+    ----------
+    expr:
+        A lazy instance.
+    """
+
+    def __init__(self, expr):
+        self.expr = expr
+
+    def __str__(self):
+        return f"({self.expr})"
+
+    def __hash__(self):
+        return hash(("()", self.expr))
+
+    def __eq__(self, other):
+        return isinstance(other, type(self)) and self.expr == other.expr
+
+    def accept(self, visitor):
+        return self.expr.accept(visitor)
+
+    def eval(self, data_mask, env):
+        return self.expr.eval(data_mask, env)
+
+
 class LazyVariable:
     """Lazy variable name.
 
@@ -295,7 +326,7 @@ class CallResolver:
         return self.expr.accept(self)
 
     def visitGroupingExpr(self, expr):
-        return expr.expression.accept(self)
+        return LazyGrouping(expr.expression.accept(self))
 
     def visitBinaryExpr(self, expr):
         otype = expr.operator.kind
